@@ -468,4 +468,26 @@ theorem c12_gen_UsesList_model (keys : List Nat) (hnd : keys.Nodup) (t : Nodes) 
 
 end UsesList
 
+
+/-- **the model's host-avoidance / use-all loop is the loop of the source's decisions, for every number of turns**:
+`pickLoopSrc` (Props/C12BigDec.lean) is the Go loop written with the extracted conditions and arithmetic only;
+`pickLoop` equals it under the invariant `roIndex < ilLen = len(used)` (kept by `(roIndex + 1) % ilLen`), and so does
+`pick` — the server of the next child — started as the source starts the loop.  With it `c12_big_terminates`,
+`c12_big_use_all`, `c12_big_wellformed` are statements about a loop every decision of which is regenerated. -/
+theorem c12_gen_big_pickLoop_eq (c : BigCfg) (used : List Bool) (parentHost first : Nat) (hl : used.length = c.ilLen)
+    (fuel ro ch : Nat) (ns : Bool) (hro : ro < c.ilLen) :
+    pickLoop c used parentHost first fuel ro ch ns = pickLoopSrc c used parentHost first fuel ro ch ns :=
+  bigdec_pickLoop_eq c used parentHost first hl fuel ro ch ns hro
+
+theorem c12_gen_big_pick_eq (c : BigCfg) (st : BigSt) (parentHost : Nat) (hl : st.used.length = c.ilLen)
+    (hro : st.roIndex < c.ilLen) :
+    pick c st parentHost =
+      pickLoopSrc c st.used parentHost st.roIndex (2 * c.ilLen + 3) st.roIndex (c.hosts.getD st.roIndex 0) true :=
+  bigdec_pick_eq c st parentHost hl hro
+
+/-- non-vacuity (the known finding's roster, 5 servers on two alternating hosts, N 3, 4 nodes): the source's loop picks
+server 1 for the first child of the root, as the model does -/
+example : pickLoopSrc ⟨3, 4, [0, 1, 0, 1, 0]⟩ [true, false, false, false, false] 0 1 13 1 1 true = some 1 ∧
+    pick ⟨3, 4, [0, 1, 0, 1, 0]⟩ ⟨[true, false, false, false, false], 1, 1⟩ 0 = some 1 := by decide
+
 end C12
